@@ -53,7 +53,7 @@ def run():
     uni, ust = common.tlc_eval_json("Dump_Universe", cfg="Dump_Universe_S")
     chk.add_tlc(ust)
     seen = set()
-    for a in rng.sample(uni, 500 if QUICK else 6000):
+    for a in rng.sample(uni, 500 if QUICK else 20000):
         ts = gen.build_tables(dict(a, sites=[], muts=[])).tree_sequence()
         n = ts.num_samples
         if n == 0:
@@ -69,7 +69,7 @@ def run():
                 fixed = rng.choice([None, None] + list(range(A)))
                 cases.append(call(tree, g, A, fixed, rng))
     nuni = len(cases)
-    for i in range(1500 if QUICK else 30000):
+    for i in range(1500 if QUICK else 120000):
         a = gen.random_abstract(rng, N=rng.randint(2, 7), K=rng.randint(1, 3), max_edges=10, nsites=0, nmuts=0,
                                 p_internal_sample=rng.choice([0.15, 0.5]))
         ts = gen.build_tables(dict(a, sites=[], muts=[])).tree_sequence()
